@@ -601,9 +601,15 @@ PROPS['C12']['encoded'] += ['VizierServicer.SuggestTrials/CompleteTrial/DeleteTr
 PROPS['C12']['obligations'] += [
     O('C12.history_q%d' % k, 'harness.c12_service', 'history_quick', 200, None,
       'real service, policy rebuilt per request: every completed trial instance is delivered exactly once, each update '
-      'carries exactly the ACTIVE trials of that moment', '3 suggests, 4 environment actions from two 5-action menus; slice '
-      '%d/5' % k, env={'VERIF_SLICE': str(k)}, no_validate=True)
-    for k in range(5)
+      'carries exactly the ACTIVE trials of that moment', '3 suggests, 4 environment actions from a 7-action and a 6-action menu; '
+      'slice %d/7' % k, env={'VERIF_SLICE': str(k)}, no_validate=True)
+    for k in range(7)
+] + [
+    O('C12.history_keep_q%d' % k, 'harness.c12_service', 'history_quick', 200, 600,
+      'the same histories with a policy factory that keeps the policy (and the supporter it was built on) alive across '
+      'requests, as a long-lived Pythia process may', 'slice %d/7' % k,
+      env={'VERIF_SLICE': str(k), 'VERIF_C12_KEEP': '1'}, no_validate=True)
+    for k in range(7)
 ] + [
     O('C12.history_s%d' % k, 'harness.c12_service', 'history', None, 1500,
       'real service, policy rebuilt per request: over the whole history every completed trial instance is delivered exactly '
